@@ -3,6 +3,7 @@ import ElaVerif.Lemmas.AuxPowTotal
 import ElaVerif.Lemmas.RunPrograms
 import ElaVerif.Lemmas.CoinbaseTotal
 import ElaVerif.Gen.C03
+import ElaVerif.Lemmas.C03Expected
 /-!
 # C03 — validating a decoded block or transaction never panics
 
@@ -201,243 +202,6 @@ theorem C03_crcArbitersMN_unguarded_panics : crcArbitersMN false [] = .panic ∧
 
 /-! ## T-gen: the accesses and guards of the real functions are the ones the models were written against -/
 
-def exp_isStandard : List String := [
-  "guard len(code) != 35",
-  "idx code[0]",
-  "idx code[34]"
-]
-
-def exp_isSchnorr : List String := [
-  "guard len(code) != 35",
-  "idx code[0]",
-  "guard int(code[1])+2 != len(code)",
-  "idx code[1]"
-]
-
-def exp_isMultiSig : List String := [
-  "guard len(code) < 37",
-  "idx code[i]",
-  "idx code[i]",
-  "idx code[i]",
-  "idx code[i]",
-  "idx code[i]",
-  "idx code[i]",
-  "slice code[i:]",
-  "idx code[i]",
-  "for code[i] == 33",
-  "idx code[i]",
-  "guard len(code) <= i",
-  "idx code[i]",
-  "guard len(code) <= i",
-  "idx code[i]",
-  "slice code[i:]",
-  "idx code[i]",
-  "guard len(code) <= i",
-  "idx code[i]",
-  "guard len(code) != i"
-]
-
-def exp_runPrograms : List String := [
-  "guard len(programHashes) != len(programs)",
-  "idx programHashes[i]",
-  "slice data[:]",
-  "slice data[:]"
-]
-
-def exp_checkStandardSignature : List String := [
-  "guard len(program.Parameter) != crypto.SignatureScriptLength",
-  "slice program.Code[1 : len(program.Code)-1]",
-  "slice program.Parameter[1:]"
-]
-
-def exp_checkSchnorrSignatures : List String := [
-  "guard len(program.Code) < 2 || len(program.Parameter) < 64",
-  "slice publicKey[:]",
-  "slice program.Code[2:]",
-  "slice signature[:]",
-  "slice program.Parameter[:64]"
-]
-
-def exp_checkCrossChainSignatures : List String := [
-  "guard len(code) < 2",
-  "idx code[len(code)-2]",
-  "idx code[0]"
-]
-
-def exp_checkMultiSigSignatures : List String := [
-  "guard len(code) < 2",
-  "idx code[len(code)-2]",
-  "idx code[0]"
-]
-
-def exp_verifyMultisigSignatures : List String := [
-  "guard len(publicKeys) != n",
-  "guard len(signatures)%SignatureScriptLength != 0",
-  "div len(signatures) % SignatureScriptLength",
-  "guard len(signatures)/SignatureScriptLength < m",
-  "div len(signatures) / SignatureScriptLength",
-  "guard len(signatures)/SignatureScriptLength > n",
-  "div len(signatures) / SignatureScriptLength",
-  "for i < len(signatures)",
-  "slice signatures[i : i+SignatureScriptLength][1:]",
-  "slice signatures[i : i+SignatureScriptLength]",
-  "slice publicKey[1:]",
-  "idx verified[hash]",
-  "idx verified[hash]",
-  "guard len(verified) < m"
-]
-
-def exp_parseMultisigScript : List String := [
-  "guard len(code) < MinMultiSignCodeLength || code[len(code)-1] != common.MULTISIG",
-  "idx code[len(code)-1]"
-]
-
-def exp_parseCrossChainScript : List String := [
-  "guard len(code) < MinMultiSignCodeLength || code[len(code)-1] != common.CROSSCHAIN",
-  "idx code[len(code)-1]"
-]
-
-def exp_parsePublicKeys : List String := [
-  "slice code[:len(code)-1]",
-  "slice code[1:]",
-  "slice code[:len(code)-1]",
-  "guard len(code)%(PublicKeyScriptLength-1) != 0",
-  "div len(code) % (PublicKeyScriptLength - 1)",
-  "for i < len(code)",
-  "slice code[i : i+PublicKeyScriptLength-1]"
-]
-
-def exp_auxPowCheck : List String := [
-  "guard len(ap.ParCoinbaseTx.TxIn) == 0",
-  "idx ap.ParCoinbaseTx.TxIn[0]",
-  "slice scriptStr[headerIndex+2:]",
-  "guard headerIndex+len(pchMergedMiningHeaderStr) != rootHashIndex",
-  "guard len(scriptStr)-rootHashIndex < 8",
-  "slice script[rootHashIndex/2 : rootHashIndex/2+4]",
-  "guard len(script) < rootHashIndex/2+8",
-  "slice script[rootHashIndex/2+4 : rootHashIndex/2+8]"
-]
-
-def exp_getExpectedIndex : List String := [
-  "guard h < 0 || h >= 32",
-  "div rand % (1 << uint32(h))"
-]
-
-def exp_getMerkleRoot : List String := [
-  "slice sha[:32]",
-  "slice it[:]",
-  "slice sha[32:]",
-  "slice hash[:]",
-  "slice sha[:]",
-  "slice sha[:32]",
-  "slice hash[:]",
-  "slice sha[32:]",
-  "slice it[:]",
-  "slice sha[:]"
-]
-
-def exp_checkCoinbaseTransactionContext : List String := [
-  "idx coinbase.Outputs()[0]",
-  "idx coinbase.Outputs()[1]",
-  "guard len(coinbase.Outputs()) != 3",
-  "idx coinbase.Outputs()[2]",
-  "idx coinbase.Outputs()[2]",
-  "idx coinbase.Outputs()[0]",
-  "idx coinbase.Outputs()[0]",
-  "idx coinbase.Outputs()[2]",
-  "idx coinbase.Outputs()[0]",
-  "idx coinbase.Outputs()[1]"
-]
-
-def exp_checkCoinbaseArbitratorsReward : List String := [
-  "guard len(rewards) != len(coinbase.Outputs())-2",
-  "for i < len(coinbase.Outputs())",
-  "idx rewards[coinbase.Outputs()[i].ProgramHash]",
-  "idx coinbase.Outputs()[i]",
-  "idx coinbase.Outputs()[i]"
-]
-
-def exp_coinbaseCheckTransactionOutput : List String := [
-  "guard len(t.Outputs()) > math.MaxUint16",
-  "guard len(t.Outputs()) < 2",
-  "idx t.Outputs()[0]",
-  "idx t.Outputs()[0]",
-  "idx t.Outputs()[1]",
-  "guard len(t.Outputs()) == 2 && foundationReward < common.Fixed64(float64(totalReward)*0.3/0.65)"
-]
-
-def exp_checkSchnorrWithdrawFromSidechain : List String := [
-  "guard int(index) >= len(arbiters)",
-  "idx signerIndexes[index]",
-  "idx signerIndexes[index]",
-  "idx arbiters[index]",
-  "for i < len(pxArr)",
-  "idx pxArr[i]",
-  "idx pyArr[i]"
-]
-
-
-def exp_checkBlockSanity : List String := [
-  "guard !header.AuxPow.Check(&hash, AuxPowChainID)",
-  "guard CheckProofOfWork(&header, b.chainParams.PowConfiguration.PowLimit) != nil",
-  "guard !tempTime.Equal(time.Unix(tempTime.Unix(), 0))",
-  "guard tempTime.After(maxTimestamp)",
-  "guard numTx == 0",
-  "guard uint32(numTx) > pact.MaxTxPerBlock",
-  "guard headerSize > int(pact.MaxBlockHeaderSize)",
-  "guard blockSize > int(pact.MaxBlockContextSize+pact.MaxBlockHeaderSize)",
-  "guard !transactions[0].IsCoinBaseTx()",
-  "idx transactions[0]",
-  "slice transactions[1:]",
-  "guard tx.IsCoinBaseTx()",
-  "guard exists",
-  "idx existingTxIDs[txID]",
-  "idx existingTxIDs[txID]",
-  "guard err != nil",
-  "guard exists",
-  "idx existingTxInputs[referKey]",
-  "idx existingTxInputs[referKey]",
-  "guard err != nil",
-  "guard err != nil",
-  "guard !header.MerkleRoot.IsEqual(calcTransactionsRoot)"
-]
-
-def exp_returnDepositSpecialContextCheck : List String := [
-  "idx fromAddrMap[output.ProgramHash]",
-  "guard len(fromAddrMap) != 1",
-  "guard output.ProgramHash.IsEqual(programHash)",
-  "guard contract.IsMultiSig(program.Code)",
-  "slice program.Code[1 : len(program.Code)-1]",
-  "guard p == nil",
-  "guard inputValue-changeValue > availableAmount || outputValue >= availableAmount"
-]
-
-def exp_registerCRSpecialContextCheck : List String := [
-  "idx t.Programs()[0]",
-  "slice code[2:]",
-  "guard len(code) >= 2 && code[len(code)-1] == vm.CHECKSIG",
-  "idx code[len(code)-1]",
-  "slice code[1 : len(code)-1]",
-  "guard code[len(code)-1] == vm.CHECKMULTISIG",
-  "idx code[len(code)-1]"
-]
-
-def exp_checkCRCArbitratorsSignaturesTx : List String := [
-  "guard len(code) < 2",
-  "idx code[len(code)-2]",
-  "idx code[0]",
-  "div float64(crcArbitratorsCount) * state.MajoritySignRatioNumerator / state.MajoritySignRatioDenominator",
-  "slice pk[1:]"
-]
-
-def exp_checkCRCArbitratorsSignaturesBc : List String := [
-  "guard len(code) < 2",
-  "idx code[len(code)-2]",
-  "idx code[0]",
-  "div float64(crcArbitratorsCount) * state.MajoritySignRatioNumerator / state.MajoritySignRatioDenominator",
-  "slice pk[1:]"
-]
-
 /-- opcode / prefix / size constants used by the models are the repository's. -/
 theorem C03_gen_constants :
     Gen.C03.PUSH1 = PUSH1 ∧ Gen.C03.PUSH16 = PUSH16 ∧ Gen.C03.CHECKSIG = CHECKSIG ∧
@@ -449,33 +213,41 @@ theorem C03_gen_constants :
     Gen.C03.SignatureScriptLength = 65 ∧ Gen.C03.PublicKeyScriptLength = 35 ∧ Gen.C03.MinMultiSignCodeLength = 71 ∧
     2 ≤ Gen.C03.MinProgramCodeSize := by decide
 
-/-- every index / slice / division expression and every length guard of the modelled
-    functions, in source order, is what the models mirror. -/
+/-- every index / slice / division / single-value type assertion and every length or nil guard of the
+    modelled functions, in source order, is what the models mirror. -/
 theorem C03_gen_accesses :
-    Gen.C03.isStandard = exp_isStandard ∧
-    Gen.C03.isSchnorr = exp_isSchnorr ∧
-    Gen.C03.isMultiSig = exp_isMultiSig ∧
-    Gen.C03.runPrograms = exp_runPrograms ∧
-    Gen.C03.checkStandardSignature = exp_checkStandardSignature ∧
-    Gen.C03.checkSchnorrSignatures = exp_checkSchnorrSignatures ∧
-    Gen.C03.checkCrossChainSignatures = exp_checkCrossChainSignatures ∧
-    Gen.C03.checkMultiSigSignatures = exp_checkMultiSigSignatures ∧
-    Gen.C03.verifyMultisigSignatures = exp_verifyMultisigSignatures ∧
-    Gen.C03.parseMultisigScript = exp_parseMultisigScript ∧
-    Gen.C03.parseCrossChainScript = exp_parseCrossChainScript ∧
-    Gen.C03.parsePublicKeys = exp_parsePublicKeys ∧
-    Gen.C03.auxPowCheck = exp_auxPowCheck ∧
-    Gen.C03.getExpectedIndex = exp_getExpectedIndex ∧
-    Gen.C03.getMerkleRoot = exp_getMerkleRoot ∧
-    Gen.C03.checkCoinbaseTransactionContext = exp_checkCoinbaseTransactionContext ∧
-    Gen.C03.checkCoinbaseArbitratorsReward = exp_checkCoinbaseArbitratorsReward ∧
-    Gen.C03.coinbaseCheckTransactionOutput = exp_coinbaseCheckTransactionOutput ∧
-    Gen.C03.checkSchnorrWithdrawFromSidechain = exp_checkSchnorrWithdrawFromSidechain ∧
-    Gen.C03.checkBlockSanity = exp_checkBlockSanity ∧
-    Gen.C03.returnDepositSpecialContextCheck = exp_returnDepositSpecialContextCheck ∧
-    Gen.C03.registerCRSpecialContextCheck = exp_registerCRSpecialContextCheck ∧
-    Gen.C03.checkCRCArbitratorsSignaturesTx = exp_checkCRCArbitratorsSignaturesTx ∧
-    Gen.C03.checkCRCArbitratorsSignaturesBc = exp_checkCRCArbitratorsSignaturesBc := by
+    Gen.C03.isStandard = C03Expected.isStandard ∧
+    Gen.C03.isSchnorr = C03Expected.isSchnorr ∧
+    Gen.C03.isMultiSig = C03Expected.isMultiSig ∧
+    Gen.C03.runPrograms = C03Expected.runPrograms ∧
+    Gen.C03.checkStandardSignature = C03Expected.checkStandardSignature ∧
+    Gen.C03.checkSchnorrSignatures = C03Expected.checkSchnorrSignatures ∧
+    Gen.C03.checkCrossChainSignatures = C03Expected.checkCrossChainSignatures ∧
+    Gen.C03.checkMultiSigSignatures = C03Expected.checkMultiSigSignatures ∧
+    Gen.C03.verifyMultisigSignatures = C03Expected.verifyMultisigSignatures ∧
+    Gen.C03.parseMultisigScript = C03Expected.parseMultisigScript ∧
+    Gen.C03.parseCrossChainScript = C03Expected.parseCrossChainScript ∧
+    Gen.C03.parsePublicKeys = C03Expected.parsePublicKeys ∧
+    Gen.C03.auxPowCheck = C03Expected.auxPowCheck ∧
+    Gen.C03.getExpectedIndex = C03Expected.getExpectedIndex ∧
+    Gen.C03.getMerkleRoot = C03Expected.getMerkleRoot ∧
+    Gen.C03.checkCoinbaseTransactionContext = C03Expected.checkCoinbaseTransactionContext ∧
+    Gen.C03.checkCoinbaseArbitratorsReward = C03Expected.checkCoinbaseArbitratorsReward ∧
+    Gen.C03.coinbaseCheckTransactionOutput = C03Expected.coinbaseCheckTransactionOutput ∧
+    Gen.C03.checkSchnorrWithdrawFromSidechain = C03Expected.checkSchnorrWithdrawFromSidechain ∧
+    Gen.C03.checkBlockSanity = C03Expected.checkBlockSanity ∧
+    Gen.C03.registerCRSpecialContextCheck = C03Expected.registerCRSpecialContextCheck ∧
+    Gen.C03.checkCRCArbitratorsSignaturesTx = C03Expected.checkCRCArbitratorsSignaturesTx ∧
+    Gen.C03.checkCRCArbitratorsSignaturesBc = C03Expected.checkCRCArbitratorsSignaturesBc ∧
+    Gen.C03.returnDepositSpecialContextCheck = C03Expected.returnDepositSpecialContextCheck := by
   refine ⟨rfl, rfl, rfl, rfl, rfl, rfl, rfl, rfl, rfl, rfl, rfl, rfl, rfl, rfl, rfl, rfl, rfl, rfl, rfl, rfl, rfl, rfl, rfl, rfl⟩
+
+/-- **Systematic table.** For every per-type checker method of core/transaction (SanityCheck, ContextCheck,
+    HeightVersionCheck, CheckTransactionSize/Input/Output/Fee, CheckAttributeProgram, CheckTransactionPayload,
+    SpecialContextCheck — 190 methods) and every function of blockchain/blockvalidator.go, confirmvalidator.go and
+    txvalidator.go that indexes, slices, divides or asserts (59 functions), the list of those sites with their
+    length / nil guards, in source order, is the reviewed snapshot.  A new unguarded access makes this lemma stale. -/
+theorem C03_gen_checker_tables :
+    Gen.C03.txCheckers = C03Expected.txCheckers ∧ Gen.C03.chainCheckers = C03Expected.chainCheckers := ⟨rfl, rfl⟩
 
 end ElaVerif.C03
